@@ -2,6 +2,7 @@
 the file-backed variant; never counted as proved): every operation sequence up to length N over 2 subjects (name
 identifiers differing in one field) x 2 sources x expiry {past, future} is run against the in-memory and the
 shelve-backed cache and compared with a reference model after every step, under a frozen clock."""
+import copy
 import itertools
 import os
 import shutil
@@ -39,10 +40,9 @@ def run(tier, seed):
         count = 0
         for seq in itertools.product(ops, repeat=N):
             count += 1
-            if tier == 'quick' and count % 7 != seed % 7:
-                continue        # quick: every 7th sequence (offset by the seed); thorough: all
             for backend in ('memory', 'shelve'):
-                if backend == 'shelve' and count % 5:
+                # the file-backed variant is slower: quick runs it on every 35th sequence (offset by the seed), thorough on every 5th
+                if backend == 'shelve' and (count + seed) % (35 if tier == 'quick' else 5):
                     continue
                 c = cache.Cache() if backend == 'memory' else cache.Cache(os.path.join(tmp, 'c%d' % count))
                 model = {}
@@ -52,7 +52,7 @@ def run(tier, seed):
                         if op[0] == 'set':
                             info = {'ava': {'uid': ['%s-%s-%s' % (op[1], op[2][-1], op[3])]}, 'name_id': subs[op[1]]}
                             c.set(subs[op[1]], op[2], info, exps[op[3]])
-                            model.setdefault(op[1], {})[op[2]] = (exps[op[3]], info['ava'])
+                            model.setdefault(op[1], {})[op[2]] = (exps[op[3]], copy.deepcopy(info['ava']))     # independent of what the cache holds
                         elif op[0] == 'reset':
                             c.reset(subs[op[1]], op[2])
                             model.setdefault(op[1], {})[op[2]] = (0, None)
@@ -102,7 +102,7 @@ def run(tier, seed):
         shutil.rmtree(tmp, ignore_errors=True)
     return {'name': 'cache_history', 'label': 'BOUNDED (cache operation histories against a reference model; not a proof)',
             'bound': 'operation sequences of length %d over %d operations (2 subjects x 2 sources x expiry past/future, reset, delete); '
-                     '%s; in-memory and every 5th also shelve-backed' % (N, len(ops), 'every 7th sequence' if tier == 'quick' else 'all sequences'),
+                     'all sequences in memory, every %s also shelve-backed' % (N, len(ops), '35th' if tier == 'quick' else '5th'),
             'evaluations': n, 'distinct_observations': len(distinct), 'violations': violations[:20]}
 
 
